@@ -382,11 +382,24 @@ def _consume(q, k, which=0):
             break
         rows.append(G.show_row((r,)) if single else G.show_row(tuple(r[kk] for kk in sel)))
     pulled = [pulls[n] for n in order]
+    _consume.last_hist = None
     if k is not None:
         # the consumer stops here (iterator abandoned); evaluating the SAME query object again must give the full
         # sequence, of which the k results above are a prefix
         if hasattr(it, "close"):
             it.close()
+        # HISTORY: a second evaluation of the same query object over the now partly cached domains, of which ONE result
+        # is taken: the cached prefix costs no pull, every further value needed costs one — so the generators have
+        # given out max(what k results need, what one result needs) elements, no more (a new evaluation must not
+        # first drain what an earlier, abandoned one left unread)
+        it2 = iter(query.evaluate())
+        try:
+            next(it2)
+        except StopIteration:
+            pass
+        _consume.last_hist = [pulls[n] for n in order]
+        if hasattr(it2, "close"):
+            it2.close()
         again = [G.show_row((r,)) if single else G.show_row(tuple(r[kk] for kk in sel)) for r in query.evaluate()]
         _consume.last_again = again
     return silent, rows, pulled
@@ -483,12 +496,15 @@ def _one(case: Case) -> str:
         silent, full, endp = _consume(q, None, which)
         n = len(full)
         parts = []
+        hist = []
         prefix_ok = True
         for k in range(n + 1):
             s_k, rows_k, p_k = _consume(q, k, which)
             silent = silent and s_k
             prefix_ok = prefix_ok and rows_k == full[:k] and _consume.last_again == full
             parts.append(f"k{k}:[" + ",".join(map(str, p_k)) + "]")
+            hist.append(f"h{k}:[" + ",".join(map(str, _consume.last_hist)) + "]")
+        parts += hist
         return (f"silent={int(silent)} prefix={int(prefix_ok)} n={n} " + " ".join(parts)
                 + " end:[" + ",".join(map(str, endp)) + "]")
     except Exception as e:  # noqa: BLE001
@@ -503,7 +519,7 @@ def _parse(obs: str):
     m = re.search(r"n=(\d+)", obs)
     if not m:
         return None
-    vecs = {k: [int(x) for x in v.split(",") if x] for k, v in re.findall(r"(k\d+|end):\[([^\]]*)\]", obs)}
+    vecs = {k: [int(x) for x in v.split(",") if x] for k, v in re.findall(r"(k\d+|h\d+|end):\[([^\]]*)\]", obs)}
     return int(m.group(1)), vecs
 
 
